@@ -14,10 +14,19 @@ class Path:
         return Path(dict(s.env), {k: list(v) for k, v in s.mem.items()}, list(s.conds), list(s.actions))
 
 
+class PanicPath(Exception): pass
+
+
 class Eval:
-    def __init__(s, body, selfdesc):
+    BODIES = {}          # def id -> body dict (crate functions and closures that may be inlined)
+    _fid = [0]
+    def __init__(s, body, selfdesc, frame=0, top=None, inl=0):
         s.b, s.selfdesc = body, selfdesc
         s.results = []
+        s.frame, s.top, s.inl = frame, (top or s), inl
+    def k(s, local):
+        """environment key of a local: plain number in the analysed function, (frame, number) in an inlined callee"""
+        return local if s.frame == 0 else (s.frame, local)
     def ptype(s, p):
         ty = s.b["locals"][p["local"]]
         for e in p["proj"]:
@@ -26,8 +35,7 @@ class Eval:
         return ty
     def resolve(s, P, p):
         """returns ('env', local, path) or ('mem', root, path) for a place"""
-        where, root, path = "env", p["local"], []
-        cur = P.env.get(p["local"])
+        where, root, path = "env", s.k(p["local"]), []
         for e in p["proj"]:
             if e["k"] == "deref":
                 v = s.read_loc(P, where, root, path)
@@ -38,7 +46,9 @@ class Eval:
             else: raise Inconclusive("projection " + e["k"])
         return where, root, path
     def read_loc(s, P, where, root, path):
-        v = P.env.get(root) if where == "env" else Tup(P.mem[root])
+        if where == "env": v = P.env.get(root)
+        elif isinstance(root, tuple) and root and root[0] == "env": v = P.env.get(root[1])
+        else: v = Tup(P.mem[root])
         for i in path:
             if i == "*": continue
             if isinstance(v, (Tup, Adt)): v = v.f[i]
@@ -49,6 +59,8 @@ class Eval:
     def write(s, P, p, val):
         where, root, path = s.resolve(P, p)
         path = [i for i in path if i != "*"]
+        if where == "mem" and isinstance(root, tuple) and root and root[0] == "env":
+            where, root = "env", root[1]
         if where == "env":
             if not path: P.env[root] = val; return
             cur = P.env.get(root)
@@ -110,6 +122,7 @@ class Eval:
             f = [s.operand(P, x) for x in r["fields"]]
             if r["agg"] == "tuple": return Tup(f)
             if r["agg"] == "adt": return Adt(r["adt"], r["variant"], f)
+            if r["agg"] == "closure" and r.get("def") in Eval.BODIES: return Adt("closure", r["def"], f)
             raise Inconclusive("aggregate " + r["agg"])
         if k == "discr":
             return ("discr", s.read(P, r["p"]))
@@ -121,11 +134,95 @@ class Eval:
             if rng.variant == "RangeTo": return Slice(sl.lo, sl.lo + rng.f[0])
             if rng.variant == "Range": return Slice(sl.lo + rng.f[0], sl.lo + rng.f[1])
         raise Inconclusive("range %r" % (rng,))
+    # ---- multi-path helpers
+    def fork_on(s, P, cond):
+        """[(path, truth)] for the feasible outcomes of a condition"""
+        out = []
+        for truth, c in ((True, cond), (False, cond.neg())):
+            dec = decide(P.conds, c)
+            if dec is False: continue
+            Q = P.fork()
+            if dec is None: Q.conds.append(c)
+            out.append((Q, truth))
+        return out
+    def opt_cases(s, P, v):
+        """[(path, Adt)] : an Option / ControlFlow value resolved to its variants"""
+        if isinstance(v, RefTo): v = s.read_loc(P, "mem", v.root, list(v.path))
+        if isinstance(v, Adt): return [(P, v)]
+        if isinstance(v, Gamma):
+            out = []
+            for Q, truth in s.fork_on(P, v.cond):
+                out += s.opt_cases(Q, v.a if truth else v.b)
+            return out
+        raise Inconclusive("option value %r" % (v,))
+    def inline(s, P, body, args):
+        if s.inl >= 3: raise Inconclusive("inlining depth")
+        Eval._fid[0] += 1
+        sub = Eval(body, s.selfdesc, frame=Eval._fid[0], top=s.top, inl=s.inl + 1)
+        for i, a in enumerate(args): P.env[sub.k(i + 1)] = a
+        sub.step(P, 0, 0)
+        return sub.results
+    def call_closure(s, P, clo, args):
+        if isinstance(clo, RefTo): clo = s.read_loc(P, "mem", clo.root, list(clo.path))
+        if isinstance(clo, Adt) and clo.name == "closure":
+            return s.inline(P, Eval.BODIES[clo.variant], [Tup(clo.f)] + list(args))
+        if isinstance(clo, Unknown) and clo.tag.startswith("const:") and False:
+            pass
+        raise Inconclusive("call of %r" % (clo,))
+    def default_of(s, t):
+        ty = s.b["locals"][t["dest"]["local"]]
+        if "[" in ty: return EMPTY
+        if ty in ("usize",): return ZERO
+        raise Inconclusive("default of " + ty)
     def call(s, P, t):
         fn = t["func"].get("fn")
         if not fn: raise Inconclusive("indirect call")
         path, name = fn["path"], fn["name"]
         args = [s.operand(P, a) for a in t["args"]]
+        NONE = Adt("Option", "None", [])
+        if path.startswith("core::option::Option::<T>::"):
+            out = []
+            for Q, o in s.opt_cases(P, args[0]):
+                some = o.variant == "Some"
+                x = o.f[0] if some and o.f else None
+                if name in ("map", "and_then", "filter", "is_some_and", "map_or", "map_or_else"):
+                    ci = 2 if name in ("map_or", "map_or_else") else 1
+                    if not some:
+                        if name == "map_or": out.append((Q, args[1]))
+                        elif name == "map_or_else":
+                            out += [(Q2, r) for Q2, r in s.call_closure(Q, args[1], [])]
+                        elif name == "is_some_and": out.append((Q, Cond("!=", ZERO)))
+                        else: out.append((Q, NONE))
+                        continue
+                    for Q2, r in s.call_closure(Q, args[ci], [x]):
+                        if name == "map": out.append((Q2, Adt("Option", "Some", [r])))
+                        elif name in ("and_then", "map_or", "map_or_else", "is_some_and"): out.append((Q2, r))
+                        else:       # filter
+                            if not isinstance(r, Cond): raise Inconclusive("filter predicate %r" % (r,))
+                            for Q3, truth in s.fork_on(Q2, r):
+                                out.append((Q3, Adt("Option", "Some", [x]) if truth else NONE))
+                elif name in ("unwrap_or", "unwrap_or_default", "unwrap_or_else"):
+                    if some: out.append((Q, x))
+                    elif name == "unwrap_or": out.append((Q, args[1]))
+                    elif name == "unwrap_or_default": out.append((Q, s.default_of(t)))
+                    else: out += s.call_closure(Q, args[1], [])
+                elif name in ("unwrap", "expect", "unwrap_unchecked"):
+                    if some: out.append((Q, x))
+                    else: s.top.results.append((Q.conds, Q.actions + [("PANIC", name)], Unknown("PANIC:" + name), Q.mem["self"][0]))
+                elif name in ("is_some", "is_none"):
+                    out.append((Q, Cond("==", ZERO) if (some == (name == "is_some")) else Cond("!=", ZERO)))
+                elif name in ("ok_or", "ok_or_else"):
+                    out.append((Q, Adt("Result", "Ok", [x]) if some else Adt("Result", "Err", [Unknown("err")])))
+                elif name in ("take",):
+                    raise Inconclusive("Option::take")
+                else:
+                    raise Inconclusive("call " + path)
+            return ("multi", out)
+        if path in ("core::num::<impl usize>::saturating_sub",) and all(isinstance(a, Poly) for a in args):
+            return ("multi", [(Q, (args[0] - args[1]) if truth else ZERO) for Q, truth in s.fork_on(P, Cond(">=", args[0] - args[1]))])
+        if (path in ("core::cmp::min", "core::cmp::max", "core::cmp::Ord::min", "core::cmp::Ord::max")) and len(args) == 2 and all(isinstance(a, Poly) for a in args):
+            lo = name == "min"
+            return ("multi", [(Q, (args[0] if truth else args[1]) if lo else (args[1] if truth else args[0])) for Q, truth in s.fork_on(P, Cond("<=", args[0] - args[1]))])
         if path.startswith("core::slice::<impl [T]>::"):
             sl = args[0]
             if not isinstance(sl, Slice): raise Inconclusive("%s on %r" % (name, sl))
@@ -139,6 +236,19 @@ class Eval:
             if name in ("split_last", "split_last_mut"):
                 return Gamma(Cond("!=", sl.len()), Adt("Option", "Some", [Tup([Elem(sl.hi - ONE), Slice(sl.lo, sl.hi - ONE)])]), Adt("Option", "None", []))
             if name in ("get_unchecked", "get_unchecked_mut"): return s.subslice(sl, args[1])
+            if name in ("get", "get_mut"):
+                rng = args[1]
+                some = Adt("Option", "Some", [s.subslice(sl, rng)])
+                if isinstance(rng, Poly): return Gamma(Cond("<", rng - sl.len()), some, NONE)
+                if isinstance(rng, Adt) and rng.variant == "RangeFrom": return Gamma(Cond("<=", rng.f[0] - sl.len()), some, NONE)
+                if isinstance(rng, Adt) and rng.variant == "RangeTo": return Gamma(Cond("<=", rng.f[0] - sl.len()), some, NONE)
+                if isinstance(rng, Adt) and rng.variant == "Range":
+                    return Gamma(Cond("<=", rng.f[0] - rng.f[1]), Gamma(Cond("<=", rng.f[1] - sl.len()), some, NONE), NONE)
+                raise Inconclusive("get(%r)" % (rng,))
+            if name in ("first", "first_mut"): return Gamma(Cond("!=", sl.len()), Adt("Option", "Some", [Elem(sl.lo)]), NONE)
+            if name in ("last", "last_mut"): return Gamma(Cond("!=", sl.len()), Adt("Option", "Some", [Elem(sl.hi - ONE)]), NONE)
+            if name in ("split_at_checked", "split_at_mut_checked"):
+                return Gamma(Cond("<=", args[1] - sl.len()), Adt("Option", "Some", [Tup([Slice(sl.lo, sl.lo + args[1]), Slice(sl.lo + args[1], sl.hi)])]), NONE)
         if path in ("core::ops::Index::index", "core::ops::IndexMut::index_mut") and isinstance(args[0], Slice):
             P.actions.append(("checked", "index", repr(args[1]), repr(args[0].len())))
             return s.subslice(args[0], args[1])
@@ -160,19 +270,21 @@ class Eval:
                 return Adt("Option", "Some", [args[0] + args[1]])        # language-level overflow is out of scope here
             return Gamma(Cond(">=", args[0] - args[1]), Adt("Option", "Some", [args[0] - args[1]]), Adt("Option", "None", []))
         if name == "branch" and "Try" in path:
-            v = args[0]
-            if isinstance(v, Gamma):
-                return Gamma(v.cond, Adt("ControlFlow", "Continue", [v.a.f[0]] if v.a.variant == "Some" else []), Adt("ControlFlow", "Break", [Adt("Option", "None", [])]))
-            if isinstance(v, Adt) and v.variant == "Some": return Adt("ControlFlow", "Continue", [v.f[0]])
-            if isinstance(v, Adt) and v.variant == "None": return Adt("ControlFlow", "Break", [Adt("Option", "None", [])])
-            raise Inconclusive("branch of %r" % (v,))
+            out = []
+            for Q, o in s.opt_cases(P, args[0]):
+                out.append((Q, Adt("ControlFlow", "Continue", [o.f[0]] if o.f else []) if o.variant in ("Some", "Ok") else Adt("ControlFlow", "Break", [NONE])))
+            return ("multi", out)
         if name == "from_residual":
             return Adt("Option", "None", [])
         if fn.get("trait") in ("core::iter::Iterator", "core::iter::DoubleEndedIterator", "core::iter::ExactSizeIterator") or \
            (fn.get("trait") or "").endswith("Iterator"):
             # call on self: record as action with the current cursor state
-            P.actions.append(("CALL", name, P.mem["self"][0].canon() if "self" in P.mem else repr(args[0])))
+            st_ = P.mem["self"][0] if "self" in P.mem else None
+            P.actions.append(("CALL", name, st_.canon() if isinstance(st_, Slice) else repr(args[0]), st_))
             return Unknown("ret:" + name)
+        cb = Eval.BODIES.get(fn.get("resolved") or path) or Eval.BODIES.get(path)
+        if cb is not None and cb.get("blocks"):
+            return ("multi", s.inline(P, cb, args))
         raise Inconclusive("call " + path)
     def run(s):
         b = s.b
@@ -209,6 +321,9 @@ class Eval:
             s.write(P, st["p"], v)
         t = bl["term"]; k = t["k"]
         if k == "goto": return s.step(P, t["target"], depth + 1)
+        if k == "return" and s.frame != 0:
+            s.results.append((P, P.env.get(s.k(0))))
+            return
         if k == "return":
             ret = P.env.get(0)
             s.results.append((P.conds, P.actions, ret, P.mem["self"][0] if isinstance(P.mem["self"][0], Slice) else P.mem["self"][0]))
@@ -228,7 +343,13 @@ class Eval:
                         s.write(Q, t["dest"], val)
                         s.step(Q, t["target"], depth + 1)
                     return
-            v = s.call(P, t); s.write(P, t["dest"], v)
+            v = s.call(P, t)
+            if isinstance(v, tuple) and len(v) == 2 and v[0] == "multi":
+                for Q, v2 in v[1]:
+                    s.write(Q, t["dest"], v2)
+                    if t["target"] is not None: s.step(Q, t["target"], depth + 1)
+                return
+            s.write(P, t["dest"], v)
             return s.step(P, t["target"], depth + 1)
         if k == "switch":
             d = s.operand(P, t["discr"])
@@ -243,12 +364,19 @@ class Eval:
                         # substitute the resolved value everywhere the gamma sits
                         for loc, x in list(Q.env.items()):
                             if x is val: Q.env[loc] = v
-                        idx = {"None": 0, "Some": 1, "Continue": 0, "Break": 1}[v.variant]
+                        if isinstance(v, Gamma):
+                            for Q2, o in s.opt_cases(Q, v):
+                                for loc, x in list(Q2.env.items()):
+                                    if x is val or x is v: Q2.env[loc] = o
+                                idx = {"None": 0, "Some": 1, "Continue": 0, "Break": 1, "Ok": 0, "Err": 1}[o.variant]
+                                s.step(Q2, dict((int(a), b) for a, b in t["targets"]).get(idx, t["otherwise"]), depth + 1)
+                            continue
+                        idx = {"None": 0, "Some": 1, "Continue": 0, "Break": 1, "Ok": 0, "Err": 1}[v.variant]
                         tgt = dict((int(a), b) for a, b in t["targets"]).get(idx, t["otherwise"])
                         s.step(Q, tgt, depth + 1)
                     return
                 if isinstance(val, Adt):
-                    idx = {"None": 0, "Some": 1, "Continue": 0, "Break": 1}[val.variant]
+                    idx = {"None": 0, "Some": 1, "Continue": 0, "Break": 1, "Ok": 0, "Err": 1}[val.variant]
                     tgt = dict((int(a), b) for a, b in t["targets"]).get(idx, t["otherwise"])
                     return s.step(P, tgt, depth + 1)
                 raise Inconclusive("discriminant of %r" % (val,))
@@ -263,43 +391,137 @@ class Eval:
                     tgt = tmap.get(0, t["otherwise"]) if not truth else (t["otherwise"] if 0 in tmap else tmap.get(1))
                     s.step(Q, tgt, depth + 1)
                 return
+            if isinstance(d, Poly):
+                # integer match: one arm per listed value, the rest on `otherwise`
+                vals = [(int(a), b) for a, b in t["targets"]]
+                rest = P
+                for vconst, tgt in vals:
+                    eq = Cond("==", d - Poly.const(vconst))
+                    dec = decide(rest.conds, eq)
+                    if dec is not False:
+                        Q = rest.fork()
+                        if dec is None: Q.conds.append(eq)
+                        s.step(Q, tgt, depth + 1)
+                    if dec is True:
+                        rest = None
+                        break
+                    if dec is None:
+                        rest = rest.fork(); rest.conds.append(eq.neg())
+                if rest is not None: s.step(rest, t["otherwise"], depth + 1)
+                return
             raise Inconclusive("switch on %r" % (d,))
         if k in ("unreachable", "resume"): return
         raise Inconclusive("terminator " + k)
 
 # ---------- ideal cursor schema ----------
 L, C, K, N = Poly.atom("L"), Poly.atom("C"), Poly.atom("K"), Poly.atom("n")
+
+
+class NeedCond(Exception):
+    def __init__(s, c):
+        Exception.__init__(s, repr(c)); s.c = c
+
+
+def _dec(conds, c):
+    r = decide(conds, c)
+    if r is None:
+        r = decide(saturate(conds), c)
+    return r
+
+
 def ideal(method, W, K, conds):
-    """returns (expected final slice canon, expected return description, expected tail call) using 3-valued decisions"""
+    """(expected final slice | None = any, expected return value, expected tail call (name, slice) | None) of the ideal
+    strided cursor with item width W and gap K; raises NeedCond when the path facts do not decide a case of the schema"""
     def dec(c):
-        r = decide(conds, c)
-        if r is None: raise Inconclusive("schema needs %r, path says nothing" % (c,))
+        r = _dec(conds, c)
+        if r is None: raise NeedCond(c)
         return r
+    NONE = Adt("Option", "None", [])
+    some = lambda x: Adt("Option", "Some", [x])
     step = W + K
     if method == "next":
-        if dec(Cond("==", L)): return ("[0, L)", "None", None)
-        rest = EMPTY if dec(Cond("==", L - W)) else Slice(W + K, L)
-        return (rest.canon(), "Some(%s)" % (Slice(ZERO, W).canon() if W != ONE else "elem@0"), None)
+        if dec(Cond("==", L)): return (Slice(ZERO, L), NONE, None)
+        rest = EMPTY if dec(Cond("<=", L - W)) else Slice(W + K, L)
+        return (rest, some(Slice(ZERO, W) if W != ONE else Elem(ZERO)), None)
     if method == "next_back":
-        if dec(Cond("==", L)): return ("[0, L)", "None", None)
-        rest = EMPTY if dec(Cond("==", L - W)) else Slice(ZERO, L - W - K)
-        return (rest.canon(), "Some(%s)" % (Slice(L - W, L).canon() if W != ONE else "elem@%r" % (L - ONE,)), None)
+        if dec(Cond("==", L)): return (Slice(ZERO, L), NONE, None)
+        rest = EMPTY if dec(Cond("<=", L - W)) else Slice(ZERO, L - W - K)
+        return (rest, some(Slice(L - W, L) if W != ONE else Elem(L - ONE)), None)
     if method in ("nth", "nth_back"):
         d = N * step
-        if dec(Cond(">=", d - L)) or dec(Cond("atom", atom="ovf(%r)" % (d,))):
+        if dec(Cond("atom", atom="ovf(%r)" % (d,))) or dec(Cond(">=", d - L)):
             sl = EMPTY
         else:
             sl = Slice(d, L) if method == "nth" else Slice(ZERO, L - d)
-        return (sl.canon(), "?ret:" + ("next" if method == "nth" else "next_back"), ("next" if method == "nth" else "next_back", sl.canon()))
-    if method == "last": return ("[0, L)", "?ret:next_back", ("next_back", "[0, L)"))
-    if method == "count": return ("[0, L)", "?ret:len", ("len", "[0, L)"))
+        nm = "next" if method == "nth" else "next_back"
+        return (None, Unknown("ret:" + nm), (nm, sl))
+    if method == "last": return (Slice(ZERO, L), Unknown("ret:next_back"), ("next_back", Slice(ZERO, L)))
+    if method == "count": return (Slice(ZERO, L), Unknown("ret:len"), ("len", Slice(ZERO, L)))
     raise Inconclusive("no schema for " + method)
 
-def dec3_or(conds, a, b):
-    ra, rb = decide(conds, a), decide(conds, b)
-    if ra is True or rb is True: return True
-    if ra is False and rb is False: return False
-    return None
+
+def _eq(conds, x, y):
+    return x == y or _dec(conds, Cond("==", x - y)) is True
+
+
+def same_slice(conds, a, b):
+    if a is None or b is None:
+        return True
+    if not isinstance(a, Slice) or not isinstance(b, Slice):
+        return repr(a) == repr(b)
+    def empty(sl):
+        return sl.len() == ZERO or _dec(conds, Cond("<=", sl.len())) is True
+    if empty(a) and empty(b):
+        return True
+    return _eq(conds, a.lo, b.lo) and _eq(conds, a.hi, b.hi)
+
+
+def same_value(conds, a, b):
+    if isinstance(a, Adt) and isinstance(b, Adt):
+        return a.variant == b.variant and len(a.f) == len(b.f) and all(same_value(conds, x, y) for x, y in zip(a.f, b.f))
+    if isinstance(a, Slice) and isinstance(b, Slice):
+        # a returned row must be the same cells: an empty row at a different place is still "no cells"
+        return same_slice(conds, a, b)
+    if isinstance(a, Elem) and isinstance(b, Elem):
+        return _eq(conds, a.off, b.off)
+    if isinstance(a, Poly) and isinstance(b, Poly):
+        return _eq(conds, a, b)
+    return repr(a) == repr(b)
+
+
+BASE_FACTS = [Cond(">=", L), Cond(">=", C), Cond(">=", K), Cond(">=", N)]
+
+
+def judge(m, W, Kval, conds, actions, ret, final, depth=0):
+    """verdicts for one evaluated path: the schema's own case split is applied on top of the path's facts (the path is
+    refined where its facts leave a schema case open), so code and ideal need not branch on the same conditions"""
+    def show_got():
+        calls = [a for a in actions if a[0] == "CALL"]
+        return "ret=%r final=%s call=%s" % (ret, final if not isinstance(final, Slice) else final.canon(), (calls[-1][1], calls[-1][2]) if calls else None)
+    try:
+        exp_final, exp_ret, exp_call = ideal(m, W, Kval, conds)
+    except NeedCond as e:
+        if depth >= 5:
+            return [(False, conds, show_got(), "case split differs from the ideal: %r stays undecided" % (e.c,))]
+        out = []
+        for c in (e.c, e.c.neg()):
+            if _dec(conds, c) is False:
+                continue
+            out += judge(m, W, Kval, conds + [c], actions, ret, final, depth + 1)
+        return out
+    calls = [a for a in actions if a[0] == "CALL"]
+    panics = [a for a in actions if a[0] == "PANIC"]
+    ok = not panics
+    if exp_call is None:
+        ok = ok and not calls
+    else:
+        ok = ok and bool(calls) and calls[-1][1] == exp_call[0] and same_slice(conds, calls[-1][3], exp_call[1])
+    ok = ok and same_value(conds, ret, exp_ret)
+    if exp_final is not None:
+        ok = ok and isinstance(final, Slice) and same_slice(conds, final, exp_final)
+    exp_txt = "expected ret=%r final=%s call=%s" % (exp_ret, "any" if exp_final is None else exp_final.canon(), None if exp_call is None else (exp_call[0], exp_call[1].canon()))
+    return [(ok, conds, show_got(), exp_txt)]
+
 
 def check(facts, typ, W, selfdesc, Kval):
     out = []
@@ -313,29 +535,12 @@ def check(facts, typ, W, selfdesc, Kval):
             res = Eval(b, selfdesc).run()
             verdicts = []
             for conds, actions, ret, final in res:
-                # 3-valued evaluation of schema on this path
                 try:
-                    if m in ("nth", "nth_back"):
-                        d = N * (W + Kval)
-                        cut = dec3_or(conds, Cond(">=", d - L), Cond("atom", atom="ovf(%r)" % (d,)))
-                        if cut is None: raise Inconclusive("cut undecided")
-                        sl = EMPTY if cut else (Slice(d, L) if m == "nth" else Slice(ZERO, L - d))
-                        exp = (None, "?ret:" + ("next" if m == "nth" else "next_back"), ("next" if m == "nth" else "next_back", sl.canon()))
-                    else:
-                        exp = ideal(m, W, Kval, conds)
-                    calls = [a for a in actions if a[0] == "CALL"]
-                    got_call = (calls[-1][1], calls[-1][2]) if calls else None
-                    zs = [c.poly for c in conds if c.op == "==" and c.poly is not None and len(c.poly.t) == 1 and list(c.poly.t.values()) == [1] and len(list(c.poly.t)[0]) == 1]
-                    def norm(sl):
-                        for z in zs:
-                            a = list(z.t)[0][0]; sl = Slice(sl.lo.zero_atom(a), sl.hi.zero_atom(a))
-                        return sl.canon()
-                    got_final = norm(final) if isinstance(final, Slice) else repr(final)
-                    if exp[0] == "[0, L)": exp = (norm(Slice(ZERO, L)), exp[1], exp[2])
-                    ok = (repr(ret).replace("None()", "None") == exp[1]) and (got_call == exp[2]) and (exp[0] is None or got_final == exp[0])
-                    verdicts.append((ok, conds, "ret=%r final=%s call=%s" % (ret, got_final, got_call), "expected ret=%s final=%s call=%s" % (exp[1], exp[0], exp[2])))
+                    base = [c for c in BASE_FACTS if not any(k.key() == c.key() for k in conds)]
+                    vs = judge(m, W, Kval, list(conds) + base, actions, ret, final)
+                    # report with the path's own facts (plus the refinement), not the sign facts
+                    verdicts += [(okv, [c for c in cs if not any(c.key() == k.key() for k in BASE_FACTS)], got, exp) for okv, cs, got, exp in vs]
                 except Inconclusive as e:
-                    # the engine understood the code, but the code's case split does not determine the schema's: partition mismatch
                     verdicts.append((False if "no schema" not in str(e) else None, conds, "ret=%r final=%r" % (ret, final), "case split differs from the ideal: %s" % e))
             out.append((typ, m, verdicts))
         except Inconclusive as e:
@@ -432,6 +637,7 @@ REQUIRED_FNS = ("next", "next_back", "size_hint")     # the others are optional 
 def r_cursor(f):
     R = Result("R-CURSOR")
     raw = f.raw
+    Eval.BODIES = {b["id"]: b for b in raw["bodies"] if b.get("blocks")}
     nfun = 0
     ninc = 0
     for typ in ("Rows", "RowsMut", "Col", "ColMut"):
